@@ -53,7 +53,8 @@ REQUIRED_LABELS = {"all": ["rep:gaussian", "rep:bosonic", "rep:fock", "rep:fock_
                            "displaced", "correlated", "cross_fock", "m:parity_expectation", "m:reduced_dm",
                            "m:number_expectation", "m:wigner", "m:poly_quad_expectation", "m:fock_prob",
                            "m:fidelity_coherent", "m:mean_photon", "m:quad_expectation", "m:squeezing",
-                           "hbar:0.7", "hbar:2.0", "hbar:3.1", "cat", "samples"]}
+                           "hbar:0.7", "hbar:2.0", "hbar:3.1", "cat", "samples", "non_involutive_order", "backend_state:fock_pure",
+                           "backend_state:fock_mixed", "backend_state:gaussian", "backend_state:bosonic"]}
 
 HBARS = [2.0, 0.7, 3.1]
 TIGHT = 1e-8
@@ -1732,6 +1733,84 @@ def check_samples(ctx, case):
     return None
 
 
+# =================================================================================================
+# sub-check backend_state_order: the state returned for a requested subset / order of modes
+# =================================================================================================
+@st.composite
+def bso_case(draw):
+    n = draw(st.sampled_from([3, 3, 4]))
+    preps = []
+    for j in range(n):
+        preps.append(["DisplacedSqueezed", [draw(gen.fl(0.1, 0.5)), draw(gen.angle()), draw(gen.fl(-0.3, 0.3)), draw(gen.angle())], [j], {}])
+    gates = draw(gen.op_list(n, ["BSgate", "BSgate", "Rgate", "S2gate"], "fock", 1, 4))
+    k = draw(st.integers(1, n))
+    order = list(draw(st.permutations(list(range(n))))[:k])
+    return {"n": n, "ops": preps + gates, "order": order, "backend": draw(st.sampled_from(["fock_pure", "fock_mixed", "gaussian", "bosonic", "fock_pure"])),
+            "via": draw(st.sampled_from(["run", "backend"])), "phi": draw(gen.angle())}
+
+
+def check_bso(ctx, case):
+    """BaseBackend.state: 'the returned state contains the requested modes in the given order' (bosonic documents ascending order); whatever
+    the order, the labels (mode_names) and the data of the returned state must belong together and equal the full state's data for that mode"""
+    import strawberryfields as sf
+    from vf import spec
+
+    n, order, be = case["n"], case["order"], case["backend"]
+    labels = ["backend_state:" + be, "via:" + case["via"]]
+    if order != sorted(order):
+        labels.append("reordered")
+    rank = list(np.argsort(order))
+    if [rank[r] for r in rank] != list(range(len(order))):
+        labels.append("non_involutive_order")
+    opts = {"cutoff_dim": 6, "pure": be == "fock_pure"} if be.startswith("fock") else {}
+    try:
+        eng = sf.Engine(be.split("_")[0], backend_options=opts)
+        prog = spec.build_program(n, case["ops"])
+        if case["via"] == "run":
+            full = sf.Engine(be.split("_")[0], backend_options=opts).run(spec.build_program(n, case["ops"])).state
+            sub = eng.run(prog, modes=list(order)).state
+        else:
+            full = eng.run(prog).state
+            sub = eng.backend.state(modes=list(order))
+    except Exception as exc:  # pylint: disable=broad-except
+        ctx.note(case, True, labels)
+        return ctx.crash(exc, "state_modes." + be)
+    ctx.note(case, nontrivial=len(order) >= 2, labels=labels)
+    if sub.num_modes != len(order):
+        return ctx.fail("backend_state.num_modes.%s" % be, "state(modes=%s) has %d modes" % (order, sub.num_modes))
+    try:
+        names = [int(nm[2:-1]) for nm in [sub.mode_names[i] for i in range(sub.num_modes)]]
+    except Exception:  # pylint: disable=broad-except
+        return ctx.fail("backend_state.mode_names.%s" % be, "unparsable mode names %r" % (sub.mode_names,))
+    want = sorted(order) if be == "bosonic" else list(order)
+    if names != want:
+        return ctx.fail("backend_state.mode_names.%s" % be, "state(modes=%s) is labelled %s, documented order is %s" % (order, names, want))
+    for i, m in enumerate(names):
+        for what, fa, fb in (
+            ("mean_photon", lambda: sub.mean_photon(i), lambda: full.mean_photon(m)),
+            ("quad_expectation", lambda: sub.quad_expectation(i, case["phi"]), lambda: full.quad_expectation(m, case["phi"])),
+            ("quad_expectation_p", lambda: sub.quad_expectation(i, case["phi"] + 1.0), lambda: full.quad_expectation(m, case["phi"] + 1.0)),
+        ):
+            try:
+                a, b = np.array(fa(), float), np.array(fb(), float)
+            except Exception as exc:  # pylint: disable=broad-except
+                return ctx.crash(exc, "state_modes.%s.%s" % (be, what))
+            if float(np.max(np.abs(a - b))) > 1e-8 * (1 + float(np.max(np.abs(b)))):
+                return ctx.fail("backend_state.data_under_wrong_label.%s" % be, "state(modes=%s): position %d is labelled q[%d] but its %s is %s; mode %d of the full state has %s" % (
+                    order, i, m, what, np.round(a, 6).tolist(), m, np.round(b, 6).tolist()))
+    # one two-mode correlation: <n_i n_j> (not offered by the bosonic state)
+    if len(names) >= 2 and be != "bosonic":
+        try:
+            a = np.array(sub.number_expectation([0, len(names) - 1])[0], float)
+            b = np.array(full.number_expectation([names[0], names[-1]])[0], float)
+        except Exception as exc:  # pylint: disable=broad-except
+            return ctx.crash(exc, "state_modes.%s.number_expectation" % be)
+        if abs(a - b) > 1e-8 * (1 + abs(b)):
+            return ctx.fail("backend_state.correlation_under_wrong_label.%s" % be, "state(modes=%s): <n n> of positions (0, %d) = %.8g, of modes (%d, %d) in the full state = %.8g" % (
+                order, len(names) - 1, a, names[0], names[-1], b))
+    return None
+
+
 SUBS = [
     Sub("gauss_tri", check=check_tri, strategy=lambda ctx: tri_case(), examples={"quick": 180, "thorough": 2500}, shards={"quick": 4, "thorough": 16},
         budget={"quick": 100, "thorough": 1500}, rule="one Gaussian state as gaussian / bosonic / fock object: every method vs oracle and across representations"),
@@ -1739,6 +1818,9 @@ SUBS = [
         budget={"quick": 100, "thorough": 1500}, rule="random low-photon kets / two-term mixtures as fock objects (ket and tensor data) vs exact Fock formulas"),
     Sub("bosonic_cat", check=check_cat, strategy=lambda ctx: cat_case(), examples={"quick": 200, "thorough": 2000}, shards={"quick": 1, "thorough": 8},
         budget={"quick": 100, "thorough": 1500}, rule="cat state (4 complex-weighted Gaussians), alone or beside a Gaussian mode, vs four-Gaussian formulas and the exact ket"),
+    Sub("backend_state_order", check=check_bso, strategy=lambda ctx: bso_case(), examples={"quick": 50, "thorough": 1500}, shards={"quick": 3, "thorough": 16},
+        budget={"quick": 100, "thorough": 900}, rule="eng.run(prog, modes=order) / backend.state(modes=order) on fock (pure, mixed), gaussian, bosonic for any subset and "
+        "order of 3..4 modes (3-cycles included): labels follow the documented order and per-mode data / a two-mode correlation equal those of the full state"),
     Sub("samples", check=check_samples, strategy=lambda ctx: samples_case(), examples={"quick": 1500, "thorough": 20000}, shards={"quick": 1, "thorough": 4},
         budget={"quick": 100, "thorough": 600}, rule="samples_expectation / samples_variance / all_fock_probs_pnr vs numpy formulas, invalid input rejected"),
 ]
